@@ -215,6 +215,24 @@ def run(ctx):
         a, b = g0["nodes"][i]["name"], g1["nodes"][i]["name"]
         if a != b and not (q and b is not None and a is not None and b.split("<")[0].endswith("." + a.split("<")[0])):
             ctx.violate("config", "name-differs-beyond-extension-prefix", {"node": i, "default": a, "config": b})
+    if ch.coin(1, 4, "one-renderer-two-hugrs"):
+        # one renderer object used for two HUGRs in turn: nothing of one rendering may show in the next
+        from hugr import tys
+        from hugr.build.dfg import Dfg
+        from hugr.hugr.render import DotRenderer
+        from hugr.std.logic import Not
+        other = Dfg(tys.Bool)
+        other.set_outputs(other.add_op(Not, other.inputs()[0]))
+        rr = DotRenderer(RenderConfig(PALETTE[pal], q))
+        ctx.checked("renderer-reuse")
+        s_a = rr.render(h).source
+        s_b = rr.render(other.hugr).source
+        s_a2 = rr.render(h).source
+        ctx.probe("one_renderer_two_hugrs")
+        if s_a != s_a2 or structure(dot.parse(s_a)) != structure(g1):
+            ctx.violate("config", "renderer-object-carries-state-between-hugrs", {})
+        elif len(dot.parse(s_b)["nodes"]) != len(other.hugr):
+            ctx.violate("node", "second-hugr-of-a-reused-renderer", {"nodes": len(dot.parse(s_b)["nodes"]), "expected": len(other.hugr)})
     if ch.coin(1, 3, "edit-in-place-then-render"):
         # render, change an operation / metadata in place (as resolve_extensions or a client would), render again
         from hugr import ops as hops
